@@ -6,7 +6,7 @@ import struct
 from vmon import gen, runner
 
 RULE = ("a table option -> (argv fragment, probe on the produced matplotlib figure / saved file, expected value); every "
-        "documented appearance option is run alone and in random subsets of 2-7 mutually compatible options (independence) "
+        "documented appearance option is run alone and in all pairs of related options and random subsets of 2-7 mutually compatible options (independence) "
         "on six figure kinds: standard line plot, location-axis plot, map, and the multi-axes diagrams pithist, igncontrib, "
         "against; the figure is really saved (-f) and the file's magic bytes and pixel size are read back. A probe must "
         "hold for every option present, regardless of the others. signature = (sorted option subset, figure kind); "
@@ -463,6 +463,7 @@ def plan(tier, seed):
     n = 8 if tier == "quick" else 250
     shards += [{"part": "subsets", "seed": seed, "k": k, "n": n} for k in range(8)]
     shards += [{"part": "formats", "seed": seed}]
+    shards += [{"part": "pairs", "seed": seed, "k": k, "of": 6} for k in range(6)]
     return shards
 
 
@@ -589,6 +590,28 @@ def run_subsets(desc, ctx):
         check(ctx, kind, names, desc["seed"], "m%d" % ci, df)
 
 
+FAMILIES = [["gc", "gs", "gw"], ["left", "right", "top", "bottom", "fs", "dpi"], ["xrot", "yrot", "tickfs"],
+            ["title", "xlabel", "ylabel", "labfs"], ["titlefs", "xlabel", "labfs"], ["leg", "legfs", "legloc"],
+            ["lc", "ls", "lw", "ma", "ms"], ["xlim", "ylim"], ["xlog", "ylog"], ["xticks", "yticks"], ["a", "tickfs"], ["afs", "labfs"]]
+
+
+def run_pairs(desc, ctx):
+    """all pairs of related options (the interactions most likely to share code) on the standard figure"""
+    import itertools
+    df = default_failures(ctx, desc["seed"])
+    i = 0
+    for fam in FAMILIES:
+        for a, b in itertools.combinations(fam, 2):
+            for kind in ("std", "pithist"):
+                if kind not in OPTIONS[a][1] or kind not in OPTIONS[b][1] or not compatible([a, b]):
+                    continue
+                i += 1
+                if i % desc["of"] != desc["k"]:
+                    continue
+                ctx.count("subset_runs")
+                check(ctx, kind, [a, b], desc["seed"], "p%d" % i, df)
+
+
 def run_formats(desc, ctx):
     import matplotlib.pyplot as mpl
     F, base = KINDS["std"]
@@ -609,7 +632,7 @@ def run_formats(desc, ctx):
 
 
 def run_shard(desc, ctx):
-    {"single": run_single, "subsets": run_subsets, "formats": run_formats}[desc["part"]](desc, ctx)
+    {"single": run_single, "subsets": run_subsets, "formats": run_formats, "pairs": run_pairs}[desc["part"]](desc, ctx)
 
 
 def replay(case, ctx):
